@@ -301,5 +301,22 @@ PROPS["C05"] = {
     ],
 }
 
+PROPS["C20"] = {
+    "quick_secs": 2,
+    "thorough_secs": 2,
+    "min_evaluations": 300,
+    "exhaustive": True,
+    "technique": "configuration monitor: for each of the 7 architectures, the scalars its own translator produces over a register-sweep corpus, the scalar written by a stack-adjusting instruction, load address widths and the ELF loader's mapping are observed and compared with the published descriptors and a psABI table",
+    "rule": "the finite space of 7 architectures x their calling-convention tables is enumerated completely on every run: every register named "
+            "(argument, return, return-address, preserved, trashed) must be a (name, width) scalar observed in IL lifted by arch.translator() from a "
+            "register-sweep corpus; no register name both preserved and trashed; stack pointer preserved; stack slots of one machine word at "
+            "consecutive offsets; argument order / return register / return-address location per psABI; stack_pointer() is the scalar written by a "
+            "push/addiu $sp/stwu r1/sub sp instruction serialised in arch.endian() order; load/store address width = word_size(); loader::Elf maps "
+            "(e_machine, EI_DATA) to the same descriptor. Distinct = (architecture, role, register) facts confirmed.",
+    "level_text": "A finite configuration space, enumerated completely (exhaustive: true); the observed side depends on the corpus, which sweeps every register number of every register class the conventions mention.",
+    "level_note": "trusts the psABI table in harness/src/c20.rs (argument registers, return register, return-address location for cdecl, SysV amd64, o32, PPC SVR4, AAPCS64) and harness/src/elfgen.rs for the loader probe",
+    "assumptions": ["psABI facts transcribed by hand into harness/src/c20.rs"],
+}
+
 # properties not claimed, with the reason (everything else not in PROPS is 'not built yet')
 NOT_CLAIMED = {}
